@@ -28,8 +28,8 @@ import (
 var Check = &ev.Check{
 	ID:    "C20",
 	Level: "exploration",
-	Rule: "histories: 4 base programs (single file; root + included file in a subdirectory; two independent files, one two directories deep; two independent files sharing a base name in different directories) x every edit script of length<=2 over 17 edit kinds at every applicable position " +
-		"(remove service/method, add required/optional field, optional<->required, change field type to i64 / list<i32> / a typedef of the old type, add method/service/struct/const+typedef+enum/file, delete unused struct, delete file, reorder fields/definitions), " +
+	Rule: "histories: 4 base programs (single file; root + included file in a subdirectory; two independent files, one two directories deep; two independent files sharing a base name in different directories) x every edit script of length<=2 over 19 edit kinds at every applicable position " +
+		"(remove service/method, add required/optional field, remove a field, drop the last field and add a required one in one commit, optional<->required, change field type to i64 / list<i32> / a typedef of the old type, add method/service/struct/const+typedef+enum/file, delete unused struct, delete file, reorder fields/definitions), " +
 		"each committed as HEAD~/HEAD of a scratch git repository. Each history is checked in-process through git.Compare under every map-iteration order (<=1 deviating range execution) in internal/compare and compile, and through the real thriftbreak binary in readable and JSON mode (single edits: under six spellings of the repository directory - absolute, trailing separator, dot segments, relative, '.', default) (quick: scripts of 2 edits are judged in-process under the default order only). " +
 		"Oracle: the multiset of diagnostics reduced to (file, quoted names) equals ref/breakref's; exit status non-zero iff non-empty; identical across orders. Cases are distinct (base, script) pairs; non-trivial = scripts containing at least one breaking edit.",
 	Prepare: prepare,
